@@ -92,5 +92,21 @@ def judge(acc, case, prog, cfg, rng):
     return findings
 
 
+def judge_record(acc, rec, value, mode):
+    findings, info = oracles.primal_check(rec, value, mode)
+    acc.count("sent_checked", len(rec["sent"]))
+    return findings
+
+
 def run_shard(spec):
-    return sb.run_generic(spec, judge, config_fn=config_fn)
+    res = sb.run_generic(spec, judge, config_fn=config_fn)
+    if "replay" not in spec:
+        acc = sb.Acc()
+        sb.run_examples_under_monitor(spec, acc, judge_record, draws=0 if spec.get("tier") == "quick" else 6)
+        r2 = acc.result()
+        for k, v in r2["counters"].items():
+            res["counters"][k] = res["counters"].get(k, 0) + v
+        res["signatures"] = sorted(set(res["signatures"]) | set(r2["signatures"]))
+        res["violations"] += r2["violations"]
+        res["observations"] += r2["observations"]
+    return res
